@@ -9,7 +9,7 @@
     [normal v] says v is an int or a reduced Fraction with denominator <> 1. *)
 From Coq Require Import List Bool ZArith NArith QArith Qreduction Qround Qabs String.
 Import ListNotations.
-From Verif Require Import Common.ListX Gen.Tables C20.Model C20.Spec C20.SpecProofs C20.Proofs.
+From Verif Require Import Common.ListX Gen.Tables C20.Model C20.Spec C20.SpecProofs C20.Proofs C20.ModRem.
 Open Scope Q_scope.
 
 (** Obligations on the tables regenerated from optimizer.py: every operator the optimizer
@@ -60,6 +60,14 @@ Theorem C20_mod_sign : forall x y, normal x -> normal y -> ~ den y == 0 ->
               (0 < den y -> 0 <= den m /\ den m < den y) /\
               (den y < 0 -> den y < den m /\ den m <= 0).
 Proof. exact Proofs.mod_law. Qed.
+(** mod and rem of the same operands differ by nothing or by the divisor: mod is rem when the
+    remainder is zero or has the divisor's sign, and rem + y otherwise *)
+Theorem C20_mod_is_rem_or_rem_plus_divisor : forall x y, normal x -> normal y -> ~ den y == 0 ->
+  exists r m, divop ORem x y = Val r /\ divop OMod x y = Val m /\
+              (den m == den r \/ den m == den r + den y) /\
+              (den m == den r <->
+               den r == 0 \/ (0 < den y /\ 0 < den r) \/ (den y < 0 /\ den r < 0)).
+Proof. exact ModRem.mod_is_rem_or_rem_plus_divisor. Qed.
 (** on integers they are Coq's Z.quot, Z.rem and Z.modulo *)
 Theorem C20_int_quot_rem_mod : forall a b, b <> 0%Z ->
   divop OQuot (PInt a) (PInt b) = Val (PInt (Z.quot a b)) /\
@@ -129,6 +137,7 @@ Print Assumptions C20_integral_ratio_is_int.
 Print Assumptions C20_integral_ratio_is_int_quot_rem_mod.
 Print Assumptions C20_quot_rem.
 Print Assumptions C20_mod_sign.
+Print Assumptions C20_mod_is_rem_or_rem_plus_divisor.
 Print Assumptions C20_int_quot_rem_mod.
 Print Assumptions C20_arith_is_reference.
 Print Assumptions C20_quot_rem_mod_is_reference.
